@@ -12,6 +12,17 @@ fn build_config(v: &Value) -> BuildConfig {
     for kv in v["env"].as_array().unwrap() {
         c.env(string_of(&kv[0]), string_of(&kv[1]));
     }
+    // a history of configuration calls: env(k, v) one at a time, envs([...]) in bulk; later calls update earlier ones
+    for call in v["env_calls"].as_array().map(Vec::as_slice).unwrap_or_default() {
+        let pairs: Vec<(String, String)> = call["pairs"].as_array().unwrap().iter().map(|kv| (string_of(&kv[0]), string_of(&kv[1]))).collect();
+        if call["via"] == "envs" {
+            c.envs(pairs);
+        } else {
+            for (k, val) in pairs {
+                c.env(k, val);
+            }
+        }
+    }
     if v["expected"] == "failure" {
         c.expected_pack_result(PackResult::Failure);
     }
@@ -40,6 +51,16 @@ fn container_config(v: &Value) -> ContainerConfig {
     }
     for kv in v["env"].as_array().unwrap() {
         c.env(string_of(&kv[0]), string_of(&kv[1]));
+    }
+    for call in v["env_calls"].as_array().map(Vec::as_slice).unwrap_or_default() {
+        let pairs: Vec<(String, String)> = call["pairs"].as_array().unwrap().iter().map(|kv| (string_of(&kv[0]), string_of(&kv[1]))).collect();
+        if call["via"] == "envs" {
+            c.envs(pairs);
+        } else {
+            for (k, val) in pairs {
+                c.env(k, val);
+            }
+        }
     }
     for p in v["ports"].as_array().unwrap() {
         c.expose_port(u16::try_from(p.as_u64().unwrap()).unwrap());
